@@ -1,7 +1,9 @@
 """Regenerates the attribute write table of class WCS (gwcs/wcs.py) + GWCSAPIMixin (gwcs/api.py):
 for every method, the set of `self.<attr>` it assigns (directly, through `self._pipeline[i].x = ...`, or
 through `super().__setattr__`), closed under calls to other methods / property reads of the same object.
-`resets` keeps only assignments of the constant None."""
+`resets` lists the attributes that are assigned the constant None ON EVERY PATH THAT RETURNS NORMALLY (a must-analysis over
+if / try / with / early returns; loops may run zero times; raising paths are excluded) — directly or through a call to /
+property store on another method of the same object that must-resets it."""
 import ast
 import os
 
@@ -33,6 +35,102 @@ def own_writes(f):
     return w, r
 
 
+def _is_reset(stmt):
+    """attributes assigned the constant None by this simple statement"""
+    out = set()
+    if isinstance(stmt, ast.Assign) and isinstance(stmt.value, ast.Constant) and stmt.value.value is None:
+        for t in stmt.targets:
+            if isinstance(t, ast.Attribute) and isinstance(t.value, ast.Name) and t.value.id == "self":
+                out.add(t.attr)
+    return out
+
+
+def _calls(stmt, names, meths):
+    """methods of the same object that this statement certainly calls / property-stores (not inside a lambda or comprehension
+    condition: ast.walk over the statement's own expressions only — nested statements are handled by the block analysis)"""
+    d = set()
+    exprs = [c for c in ast.iter_child_nodes(stmt) if isinstance(c, ast.expr)]
+    for e in exprs:
+        for n in ast.walk(e):
+            if isinstance(n, (ast.Lambda, ast.IfExp, ast.BoolOp, ast.ListComp, ast.GeneratorExp, ast.DictComp, ast.SetComp)):
+                continue
+            if isinstance(n, ast.Attribute) and isinstance(n.value, ast.Name) and n.value.id == "self" and n.attr in names:
+                if isinstance(n.ctx, ast.Store):
+                    if n.attr + "__set" in meths:
+                        d.add(n.attr + "__set")
+                elif isinstance(n.ctx, ast.Load):
+                    d.add(n.attr)
+    # conservative: anything under a conditional expression does not count
+    cond = set()
+    for e in exprs:
+        for n in ast.walk(e):
+            if isinstance(n, (ast.Lambda, ast.IfExp, ast.BoolOp, ast.ListComp, ast.GeneratorExp, ast.DictComp, ast.SetComp)):
+                for m in ast.walk(n):
+                    if isinstance(m, ast.Attribute) and isinstance(m.value, ast.Name) and m.value.id == "self":
+                        cond.add(m.attr)
+                        cond.add(m.attr + "__set")
+    return d - cond
+
+
+def must_resets(f, M, names, meths):
+    """set of attributes reset on every normally returning path of f, given M[m] for the other methods"""
+    exits = []
+
+    def block(stmts, cur):
+        """returns the set at fall-through, or None if the block cannot fall through"""
+        for s in stmts:
+            if isinstance(s, ast.Return):
+                exits.append(set(cur))
+                return None
+            if isinstance(s, ast.Raise):
+                return None
+            if isinstance(s, ast.If):
+                a = block(s.body, set(cur))
+                b = block(s.orelse, set(cur))
+                if a is None and b is None:
+                    return None
+                cur = (a & b) if (a is not None and b is not None) else (a if a is not None else b)
+            elif isinstance(s, (ast.With, ast.AsyncWith)):
+                r = block(s.body, set(cur))
+                if r is None:
+                    return None
+                cur = r
+            elif isinstance(s, ast.Try):
+                a = block(s.body, set(cur))
+                outs = [a] if a is not None else []
+                for h in s.handlers:
+                    hb = block(h.body, set(cur))          # the try body may have raised before any reset
+                    if hb is not None:
+                        outs.append(hb)
+                if s.orelse and a is not None:
+                    o = block(s.orelse, set(a))
+                    outs = [x for x in outs if x is not a] + ([o] if o is not None else [])
+                if not outs:
+                    cur = None
+                else:
+                    cur = set.intersection(*[set(x) for x in outs])
+                if s.finalbody:
+                    fb = block(s.finalbody, set(cur) if cur is not None else set())
+                    if cur is None or fb is None:
+                        return None
+                    cur = fb
+                if cur is None:
+                    return None
+            elif isinstance(s, (ast.For, ast.While, ast.AsyncFor)):
+                block(s.body, set(cur))        # only to collect early returns inside the loop (with the pre-loop set)
+                block(s.orelse, set(cur))
+            else:
+                cur |= _is_reset(s)
+                for m in _calls(s, names, meths):
+                    cur |= M.get(m, set())
+        return cur
+
+    end = block(f.body, set())
+    if end is not None:
+        exits.append(end)
+    return set.intersection(*exits) if exits else set()
+
+
 def gen(repo):
     tree = ast.parse(open(os.path.join(repo, "gwcs", "wcs.py")).read())
     api = ast.parse(open(os.path.join(repo, "gwcs", "api.py")).read())
@@ -62,9 +160,17 @@ def gen(repo):
                     if not W[d] <= W[m]:
                         W[m] |= W[d]
                         changed = True
-                    if not R[d] <= R[m]:
-                        R[m] |= R[d]
-                        changed = True
+
+    # resets: must-analysis, iterated to a fixpoint over calls between methods
+    R = {m: set() for m in meths}
+    changed = True
+    while changed:
+        changed = False
+        for m, f in meths.items():
+            r = must_resets(f, {k: v for k, v in R.items() if k != m}, names, meths)
+            if r != R[m]:
+                R[m] = r
+                changed = True
 
     def tab(T):
         return "[" + "; ".join('("%s", [%s])' % (m, "; ".join('"%s"' % a for a in sorted(T[m]))) for m in sorted(T)) + "]"
